@@ -113,6 +113,9 @@ C_Tick == /\ IsEv("Tick") /\ Settled
           /\ IF \E m \in Msgs : Pending(m) /\ ~exp[m] THEN Tick ELSE UNCHANGED vars
 C_Minute == IsEv("Minute") /\ Minute
 C_MailReject == IsEv("MailReject") /\ MailReject(Ev.m, Ev.d)
+\* a MAIL inside an open transaction: refused, no effect (whatever sender it names)
+C_NestedMail == /\ IsEv("NestedMail") /\ Endp /\ Settled /\ pc[Ev.m] = "idle" /\ held[Ev.m].msg
+                /\ Ev.res = "503" /\ UNCHANGED vars
 C_Fill == /\ IsEv("Fill") /\ Ev.panics = 0 /\ Ev.errs = 0 /\ Ev.len = cfg.mb + 1
           /\ Fill(Ev.s)
 
@@ -130,7 +133,7 @@ C_Quiesced ==
 C_Step ==
   /\ ~mon
   /\ \/ C_Silent
-     \/ /\ (C_Call \/ C_Ret \/ C_Tick \/ C_Minute \/ C_Fill \/ C_MailReject \/ C_Snap \/ C_Quiesced)
+     \/ /\ (C_Call \/ C_Ret \/ C_Tick \/ C_Minute \/ C_Fill \/ C_MailReject \/ C_NestedMail \/ C_Snap \/ C_Quiesced)
         /\ l' = l + 1 /\ UNCHANGED <<mon, tno>>
         /\ HighWater
 
@@ -142,6 +145,7 @@ ObsApply(o, e) ==
     [] e.e = "Quiesced" -> ObsSnapX(ObsQuiesced(o, e.use, Range(e.nosem)), e.usex, Range(e.nosem))
     [] e.e = "Fill" -> V(o, e.panics = 0, "Crash")
     [] e.e = "MailReject" -> ObsMailReject(o, e.m, e.d)
+    [] e.e = "NestedMail" -> V(o, e.res # "panic", "Crash")
     [] e.e = "Yield" -> ObsYield(o, e.m)
     [] e.e = "Resume" -> ObsResume(o, e.m)
     [] OTHER -> o
